@@ -109,6 +109,7 @@ class Interp(object):
         self.native_calls = set()
         self.depth = 0
         self.max_depth = 120
+        self.max_loop = 5000
         self.no_interp = set()  # function objects to run natively although in repo
         from . import summaries
         summaries.install(self)
@@ -572,7 +573,11 @@ class Interp(object):
         h = self.loop_hook(s, frame)
         if h is not None:
             return h
+        n = 0
         while self.truth(self.eval(s.test, frame)):
+            n += 1
+            if n > self.max_loop:
+                raise Unsupported('loop at line %d not exhausted after %d iterations' % (s.lineno, n))
             try:
                 self.exec_block(s.body, frame)
             except _Break:
